@@ -20,7 +20,7 @@ INPLACE = {'__iadd__': 0, '__isub__': 0, '__imul__': 0, '__itruediv__': 0, '__id
 STRUCTURAL = {'shift', 'init_jacobian', 'init_jac_vec', 'init_hessian', 'init_hess_vec', 'init_tensor', 'extract_jacobian',
               'extract_jac_vec', 'extract_hessian', 'extract_hess_vec', 'extract_tensor', 'FtoJT', 'JTtoF', 'coeff_op',
               'combine_blocks', 'as_utpm', 'clone', 'copy', 'zeros_like', 'ones_like', 'zeros', '__len__', 'get_flat',
-              '__setitem__', 'set_zero', 'iouter', 'broadcast', 'piv2mat', 'piv2det', 'eigh1', 'lu_factor',
+              '__setitem__', 'set_zero', 'iouter', 'broadcast', 'eigh1',
               '__floordiv__'}      # floordiv shifts coefficients by design (L'Hospital) and loops forever on an all-zero divisor
 
 
@@ -46,6 +46,16 @@ def _operand_floor(ev):
     for (_, _, c) in ev.snaps:
         if c.size and c.dtype.kind in 'fc':
             S *= max(1.0, float(np.max(np.abs(c)))) * max(1.0, float(c.shape[-1] if c.ndim else 1))
+    return 1e-4 * S
+
+
+def _operand_floor_dir(ev, p):
+    """the same floor from the operands of direction p alone (directions of very different magnitude must not hide each other)"""
+    S = 1.0
+    for (_, o, c) in ev.snaps:
+        if c.size and c.dtype.kind in 'fc':
+            cc = c[:, p] if (isinstance(o, UTPM) and c.ndim >= 2 and c.shape[1] > p) else c
+            S *= max(1.0, float(np.max(np.abs(cc)))) * max(1.0, float(c.shape[-1] if c.ndim else 1))
     return 1e-4 * S
 
 
@@ -172,8 +182,6 @@ class DirectionMonitor(Monitor):
         full = _datas(res if ev.name not in INPLACE else ev.args[0])
         if full is None:
             self.ctx.skip('no-utpm-result:' + ev.name); return
-        if not all(_finite(a) for a in full):
-            self.ctx.skip('nonfinite-result'); return
         f = getattr(ev.owner, ev.name)
         for p in range(P):
             args, kwargs = ev.rebuild(lambda c: c[:, p:p + 1].copy())
@@ -187,7 +195,12 @@ class DirectionMonitor(Monitor):
             for a, b in zip(full, one):
                 if a[:, p:p + 1].shape != b.shape:
                     self.ctx.violation('direction:%s:shape' % ev.name, {'call': ev.name, 'direction': p, 'full': a.shape, 'single': b.shape}); return
-                s = _scale(b, _operand_floor(ev))
+                if not _finite(b):
+                    self.ctx.skip('nonfinite-result'); continue          # this direction overflows / is singular on its own
+                if not _finite(a[:, p:p + 1]):
+                    # finite when computed alone, not finite next to the other directions: something leaked between directions
+                    self.ctx.violation('direction:%s:nonfinite-only-with-other-directions' % ev.name, {'call': ev.name, 'direction': p, 'P': P}); return
+                s = _scale(b, _operand_floor_dir(ev, p))
                 err = np.abs(a[:, p:p + 1] - b).reshape(b.shape[0], -1).max(axis=1) if b.size else np.zeros(b.shape[0])
                 if not np.all(err <= self.TOL * _epsfac(full, [c for (_, _, c) in ev.snaps]) * s):
                     d_bad = int(np.argmax(err / s))
